@@ -360,8 +360,8 @@ class LinearOperator(Operator):
                 output_shape=self.input_shape,
                 eval_fn=lambda x: self.adj(x.conj()).conj(),
                 adj_fn=lambda x: self(x.conj()).conj(),
-                input_dtype=self.input_dtype,
-                output_dtype=self.output_dtype,
+                input_dtype=self.output_dtype,
+                output_dtype=self.input_dtype,
             )
         return LinearOperator(
             input_shape=self.output_shape,
